@@ -203,12 +203,12 @@ def cases(ctx):
                                          src, sgn, vr, vr & 1, (vr // 4) % 128])
                 yield "tc19", {"msgs": msgs}
             i += 1
-    for k in range(ctx.share(200 if quick else 8000)):
+    for k in range(ctx.share(1000 if quick else 8000)):
         msgs = [[rng.randrange(1, 5), rng.randrange(2), rng.randrange(1024), rng.randrange(2), rng.randrange(1024),
                  rng.randrange(2), rng.randrange(2), rng.randrange(512), rng.randrange(2), rng.randrange(128)] for _ in range(200)]
         yield "tc19", {"msgs": msgs}
     for mov in range(128):
-        for rep in range(1 if quick else 4):
+        for rep in range(2 if quick else 4):
             if ctx.mine(i):
                 yield "surface", {"mov": mov}
             i += 1
